@@ -122,7 +122,8 @@ fn c08_normalize_integer_bounds() {
         None => assert!(!has_max && !has_xmax),
     }
     kani::cover!(has_xmin && !has_min && num.exclusive_minimum.unwrap() == 3.0 && k == 4);
-    kani::cover!(has_min && has_xmin && num.minimum.unwrap() > num.exclusive_minimum.unwrap());
+    let vc_3 = has_min && has_xmin && num.minimum.unwrap() > num.exclusive_minimum.unwrap();
+    kani::cover!(vc_3);
     kani::cover!(has_max && num.maximum.unwrap() == -2.5 && k == -3);
 }
 
